@@ -50,7 +50,13 @@ def import_driver():
     import cassandra.timestamps as cts
     import cassandra.query as cq
     import cassandra.concurrent as cconc
-    M.update(cconn=cconn, lr=lr, ccl=ccl, cpool=cpool, cpol=cpol, cmeta=cmeta, cts=cts, cq=cq, cconc=cconc)
+    import cassandra.io.asyncioreactor as ar
+    M.update(cconn=cconn, lr=lr, ccl=ccl, cpool=cpool, cpol=cpol, cmeta=cmeta, cts=cts, cq=cq, cconc=cconc, ar=ar)
+    try:
+        import cassandra.io.twistedreactor as tr
+        M['tr'] = tr
+    except ImportError:
+        pass
     return M
 
 
